@@ -76,6 +76,8 @@ class PredEval:
                 left = env.get(st.target.id)
                 if left is None:
                     raise Unknown(f"augmented assignment to unknown {st.target.id}")
+                if isinstance(left, Unknown):
+                    raise left
                 right = self.eval(st.value, fn, env, depth)
                 env[st.target.id] = self.combine(st.op, left, right)
             elif isinstance(st, ast.Return) and st.value is not None:
@@ -151,6 +153,13 @@ class PredEval:
             if not (isinstance(it, ast.Attribute) and it.attr in ("in_degree", "out_degree")):
                 if isinstance(it, ast.Call) and isinstance(it.func, ast.Attribute) and it.func.attr in ("in_degree", "out_degree") and not it.args:
                     it = it.func
+                elif self._is_table_graph(it, fn) and isinstance(g.target, ast.Name) and isinstance(e.elt, ast.Name) and e.elt.id == g.target.id:
+                    # the other spelling: `{t for t in G if G.in_degree(t) == 0 and G.out_degree(t) > 0}`
+                    f2: Callable = lambda v: True
+                    for cond in g.ifs:
+                        c2 = self.node_deg_cond(cond, g.target.id, fn)
+                        f2 = (lambda f0, c0: (lambda v: f0(v) and c0(v)))(f2, c2)
+                    return f2
                 else:
                     raise Unknown(f"comprehension over {u(it)[:50]}")
             gexpr = it.value
@@ -172,6 +181,46 @@ class PredEval:
                 f = (lambda f0, c0: (lambda v: f0(v) and c0(v)))(f, c)
             return f
         raise Unknown(f"expression {type(e).__name__} `{u(e)[:60]}`")
+
+    def _is_table_graph(self, e: ast.AST, fn: Fn) -> bool:
+        """`e` is the dataset-only sub-graph (the property, a local bound to it, or its node view)"""
+        if isinstance(e, ast.Call) and isinstance(e.func, ast.Attribute) and e.func.attr == "nodes" and not e.args:
+            e = e.func.value
+        elif isinstance(e, ast.Attribute) and e.attr == "nodes":
+            e = e.value
+        if isinstance(e, ast.Name):
+            srcs = [x for x in self.prog.value_sources(fn, e) if not (isinstance(x, ast.Name) and x.id == e.id)]
+            if len(srcs) == 1:
+                e = srcs[0]
+        return is_self_attr(e) and e.attr in self.tg
+
+    def node_deg_cond(self, cond: ast.AST, tname: str, fn: Fn) -> Callable:
+        """condition on the degrees of loop variable `tname`: G.in_degree(t) OP k, G.out_degree[t] OP k, and / or / not of those"""
+        if isinstance(cond, ast.BoolOp):
+            parts = [self.node_deg_cond(v, tname, fn) for v in cond.values]
+            if isinstance(cond.op, ast.And):
+                return lambda v: all(p(v) for p in parts)
+            return lambda v: any(p(v) for p in parts)
+        if isinstance(cond, ast.UnaryOp) and isinstance(cond.op, ast.Not):
+            inner = self.node_deg_cond(cond.operand, tname, fn)
+            return lambda v: not inner(v)
+
+        def view(x: ast.AST) -> Optional[str]:
+            recv = arg = None
+            if isinstance(x, ast.Call) and isinstance(x.func, ast.Attribute) and len(x.args) == 1:
+                recv, arg = x.func, x.args[0]
+            elif isinstance(x, ast.Subscript) and isinstance(x.value, ast.Attribute):
+                recv, arg = x.value, x.slice
+            if recv is None or recv.attr not in ("in_degree", "out_degree") or not (isinstance(arg, ast.Name) and arg.id == tname) or not self._is_table_graph(recv.value, fn):
+                return None
+            return "in0" if recv.attr == "in_degree" else "out0"
+
+        if view(cond) is not None:
+            za = view(cond)
+            return lambda v: not v[za]
+        if isinstance(cond, ast.Compare) and len(cond.ops) == 1 and view(cond.left) is not None and isinstance(cond.comparators[0], ast.Constant) and isinstance(cond.comparators[0].value, int):
+            return self.deg_cond(ast.Compare(left=ast.Name(id="__deg", ctx=ast.Load()), ops=cond.ops, comparators=cond.comparators), "__deg", view(cond.left))
+        raise Unknown(f"degree condition `{u(cond)}`")
 
     def deg_cond(self, cond: ast.AST, dname: str, zero_atom: str) -> Callable:
         if isinstance(cond, ast.BoolOp):
@@ -512,6 +561,12 @@ def rules(ctx: Ctx) -> None:
         noncommuting = bool(body_calls & {"relabel_nodes", "remove_node", "remove_edge"})
         ctx.ob("R03.4", "fold:rename-iteration-order", ordered or not noncommuting, f"{fold.mod.path}:{c.lineno}",
                f"`{c.text()[:60]}` iterates {t!r}: relabel/remove do not commute, so the outcome of a multi-pair RENAME depends on set order")
+
+    # ---- R03.5 (= R05.4): the roles are a function of the sequence of statements - the splitter hands over every statement once, in order
+    # (a splitter that drops a repeated statement changes what a later DROP / re-creation sees)
+    from .common import import_rules as _imp03
+
+    _imp03(ctx, "C05", {"R05.4": "R03.5", "R05.1": "R03.6"})
 
 
 def _fmt(v: dict) -> str:
